@@ -413,9 +413,41 @@ fn main() {
                     std::process::exit(2);
                 }
             };
-            let input = (f.gen)(n);
+            let mut input = (f.gen)(n);
+            // variant: "complete" (default) or "truncated" (the last 3 bytes not yet received)
+            if args.get(4).map(|s| s.as_str()) == Some("truncated") && input.len() > 3 {
+                input.truncate(input.len() - 3);
+            }
             let r = call(f.entry, f.cfg, n / 3 + 8, &input);
             println!("{} {}", input.len(), &r[..r.len().min(40)]);
+        }
+        Some("memcheck") => {
+            // meant to run under `valgrind --partial-loads-ok=no`: every buffer is an exact-size heap
+            // allocation, so a single byte read before or behind it is reported, whether or not it
+            // changes a result. All prefixes (from the start of the field on) of every lane-phase
+            // frame with run length 0..=lmax, at several start offsets inside the allocation.
+            force(&backend);
+            let lmax: usize = args.get(2).and_then(|s| s.parse().ok()).unwrap_or(40);
+            let mut calls = 0u64;
+            let mut sink = 0usize;
+            for f in FIELDS.iter() {
+                for l in 0..=lmax {
+                    let mut msg = f.pre.to_vec();
+                    msg.extend(std::iter::repeat(f.fill).take(l));
+                    msg.extend_from_slice(f.post);
+                    for k in f.pre.len()..=msg.len() {
+                        for a in [0usize, 1, 3, 8, 15] {
+                            let mut v = vec![0xAAu8; a + k];
+                            v[a..].copy_from_slice(&msg[..k]);
+                            let boxed: Box<[u8]> = v.into_boxed_slice();
+                            let r = call(f.entry, f.cfg, 2, &boxed[a..]);
+                            sink += r.len();
+                            calls += 1;
+                        }
+                    }
+                }
+            }
+            println!("memcheck corpus: {} calls ({})", calls, sink);
         }
         Some("families") => {
             for f in families() {
